@@ -43,6 +43,8 @@ RF_none == {}
 RF_tomb == {"tombCorrupt"}
 RF_corrupt == {"tombCorrupt", "stateCorrupt"}
 RF_all == {"tombCorrupt", "stateCorrupt", "tombUnreadable"}
+RF_tombs == {"tombCorrupt", "tombUnreadable"}
+AsBuilt == TRUE          \* value of the defect switches in the Neg_* configurations
 (***************************************************************************)
 (* Directed scenarios.  Each D_* is the NEGATION of a situation one clause *)
 (* of C09 is about; TLC's counter-example (Dir_*.cfg) is the shortest      *)
@@ -69,6 +71,11 @@ D_Missing89Kept == ~(AtEnd /\ NoErr /\ gFull /\ zone.revoked = {} /\ \E t \in DO
 D_Missing91Gone == ~(AtEnd /\ NoErr /\ gFull /\ zone.revoked = {} /\ \E k \in gT :
                         /\ missSince[k] # None /\ missSince[k] >= 90 /\ k \notin zone.keys
                         /\ k \notin KeysIn(cur, Trusted \cup Marker))
+\* a key that has been VALID for more than the removal hold-down goes missing: its 90 days start NOW, not at the
+\* day it was first seen (AutoTA re-uses the FirstSeen stamp as the missing-since clock)
+D_MissingAfterLong == ~(AtEnd /\ NoErr /\ gFull /\ zone.revoked = {} /\ \E k \in gT :
+                        /\ missSince[k] # None /\ missSince[k] >= 1 /\ missSince[k] < 90 /\ k \notin zone.keys
+                        /\ now - missSince[k] >= 90)      \* ... and it is still missing one refresh later
 D_Reappear      == ~(pc = "WriteTombstones" /\ gFull /\ zone.revoked = {} /\ \E k \in gT \cap zone.keys :
                         missSince[k] # None /\ missSince[k] > 0)
 D_RevokeFull    == ~(AtEnd /\ NoErr /\ gFull /\ newRev)
@@ -99,4 +106,30 @@ D_RevokeNoSelfSig == ~(AtEnd /\ NoErr /\ gFull /\ \E k \in (zone.revoked \cap gT
 \* a self-signed revoked key whose tag collides with the revoked form of a trusted anchor
 D_CollidingRevoke == ~(AtEnd /\ NoErr /\ gFull /\ "C" \in zone.revoked /\ "C" \in zone.signedR /\ "A" \in gT
                        /\ "A" \notin zone.keys)
+\* ---- the tombstone store exists but cannot be opened (ELOOP, EACCES, EMFILE, EIO) ----
+\* ... in a long-running process, while it records the revocation of a key the configuration lists
+D_UnreadableRevoked == ~(pc = "ReadTombstones" /\ tombUnreadable /\ ~booting /\ tombFile.s \cap Configured # {})
+\* ... in the start-up run after a restart, same store
+D_UnreadableBoot    == ~(pc = "ReadTombstones" /\ tombUnreadable /\ booting /\ nRestart = 1 /\ tombFile.s \cap Configured # {})
+\* ... while it records nothing: what an unreadable store holds is unknowable, so the outcome is the same
+D_UnreadableEmpty   == ~(pc = "ReadTombstones" /\ tombUnreadable /\ tombFile.s = {})
+\* ... while a new key sits in its add hold-down (the fail-closed run must not touch the state file)
+D_UnreadablePend    == ~(pc = "ReadTombstones" /\ tombUnreadable /\ \E t \in DOMAIN stateFile.m : stateFile.m[t].st = "AddPend")
+\* ... and the refresh after it finds the store readable again: trust comes back, the revoked key does not
+D_UnreadableRecovers == ~(AtEnd /\ NoErr /\ gFull /\ nRF = 1 /\ ~prior /\ tombs \cap Configured # {}
+                          /\ KeysIn(cur, Trusted) # {} /\ gRevSet = {})
+\* ---- what NewResolver trusts before the first run ----
+\* a revoked key the configuration still lists, right after the restart (tombstone on disk)
+D_BootRevoked       == ~(pc = "idle" /\ booting /\ nRestart = 1 /\ nCrash = 0 /\ revAcc \cap Configured # {}
+                          /\ tombFile.kind = "ok" /\ tombFile.s \cap Configured # {})
+\* ... when only the StateRevoked marker records it (the tombstone write had failed)
+D_BootMarkerOnly    == ~(pc = "idle" /\ booting /\ nRestart = 1 /\ nCrash = 0 /\ revAcc \cap Configured # {}
+                          /\ (tombFile.kind # "ok" \/ tombFile.s = {}))
+\* ... when the process died between the two writes of the refresh that revoked it
+D_BootAfterCrash    == ~(pc = "idle" /\ booting /\ nRestart = 1 /\ nCrash = 1 /\ revAcc \cap Configured # {})
+\* ... when the store cannot be opened while the process starts
+\* (MaxRefresh = 2 leaves no room for the fault anywhere else), seen at the end of the start-up run
+D_BootUnreadable    == ~(AtEnd /\ NoErr /\ booting /\ nRestart = 1 /\ nRF = 1 /\ ~prior /\ nCrash = 0 /\ tombs \cap Configured # {} /\ gFull /\ gRevSet = {})
+\* a key that earned its trust is trusted right after a restart too (the start-up set is not just the configuration)
+D_BootEarned        == ~(pc = "idle" /\ booting /\ nRestart = 1 /\ earned # {} /\ earned \subseteq rootKeys)
 =============================================================================
